@@ -336,6 +336,9 @@ func (ex *Exec) callValue(fv Value, args []Value, site *ssa.CallCommon) Value {
 	return ex.callFunction(f.fn, args, f.fv)
 }
 
+// intrinsics that handle slices of symbolic length themselves
+var noMatIntrinsics = map[string]bool{"(*os.File).Read": true, "(*os.File).ReadAt": true}
+
 type fnDispatch struct {
 	api   intrinsicFn
 	intr  intrinsicFn
@@ -378,7 +381,9 @@ func (ex *Exec) callFunction(fn *ssa.Function, args []Value, fvs []Value) (ret V
 	}
 	if d.intr != nil {
 		ex.stubsUsed[d.name] = true
-		ex.matArgs(args)
+		if !noMatIntrinsics[d.name] {
+			ex.matArgs(args)
+		}
 		return d.intr(ex, fn, args)
 	}
 	if d.isPkgInit {
